@@ -166,7 +166,7 @@ PROPS = {
   'quick': {'cases': 32000, 'max_size': 300, 'wall_s': 900},
   'thorough': {'cases': 128000, 'max_size': 400, 'wall_s': 3000},
   'sim': ['simsock', 'fakecurl', 'simclock'],
-  'essential_classes': ['altered:input-hash-relabelled-same-digest', 'altered:shared-right-link-relabelled-same-digest', 'reply:request-echoed-around-forged-response', 'reply:correct', 'reply:wrong-id', 'reply:no-status-wrong-id', 'reply:right-link-altered', 'altered:shared-right-link', 'altered:last-shared-right-link', 'reply:other-input-hash', 'reply:shape-flip', 'reply:other-aggr-time', 'api:async', 'api:extend(pubRec)', 'api:extendTo',
+  'essential_classes': ['supplied-record:with-references-and-repository-uris', 'altered:input-hash-relabelled-same-digest', 'altered:shared-right-link-relabelled-same-digest', 'reply:request-echoed-around-forged-response', 'reply:correct', 'reply:wrong-id', 'reply:no-status-wrong-id', 'reply:right-link-altered', 'altered:shared-right-link', 'altered:last-shared-right-link', 'reply:other-input-hash', 'reply:shape-flip', 'reply:other-aggr-time', 'api:async', 'api:extend(pubRec)', 'api:extendTo',
                         'src:nocal', 'src:cal+pub', 'src:cal+auth', 'target:earlier', 'target:head', 'outcome:success', 'outcome:error'],
   'assumptions': ['simulated calendar is coherent in the way real calendars are (left subtrees never change)'],
  }, 'C20': {
@@ -211,7 +211,7 @@ PROPS = {
   'quick': {'cases': 12800, 'max_size': 300, 'exhaustive': True, 'wall_s': 1200},
   'thorough': {'cases': 64000, 'max_size': 400, 'exhaustive': True, 'wall_s': 3400},
   'sim': ['simsock', 'fakecurl', 'simclock'],
-  'essential_classes': ['connect:never-completes', 'connect:refused(IN|OUT|ERR|HUP)', 'connect:refused(ERR|HUP)', 'connect-timeout:non-zero', 'mode:handles-added-again', 'mode:random-chunks', 'mode:close-at-offset', 'mode:reset-at-offset', 'mode:blocking-chunks', 'mode:blocking-truncated', 'mode:cut-inside-request-stream', 'eintr-injected', 'split-inside-header', 'request-on-fresh-connection', 'request-cut-short-by-connection-end', 'baseline-with-completed-responses'],
+  'essential_classes': ['mode:send-timeout-inside-a-request', 'connect:never-completes', 'connect:refused(IN|OUT|ERR|HUP)', 'connect:refused(ERR|HUP)', 'connect-timeout:non-zero', 'mode:handles-added-again', 'mode:random-chunks', 'mode:close-at-offset', 'mode:reset-at-offset', 'mode:blocking-chunks', 'mode:blocking-truncated', 'mode:cut-inside-request-stream', 'eintr-injected', 'split-inside-header', 'request-on-fresh-connection', 'request-cut-short-by-connection-end', 'baseline-with-completed-responses'],
   'assumptions': ['simulated socket semantics as documented in sim/simnet.hpp'],
  }, 'C15': {
   'technique': 'exhaustive outcome/order table + rapidcheck for configuration sets, over simulated endpoints; oracle = first-valid-wins model and a reference fold',
